@@ -327,6 +327,8 @@ fn main() -> Result<(), Box<dyn std::error::Error>> {
         "blake3_neon",
         "blake3_wasm32_simd",
     ];
+    // Verification hooks are guarded by this cfg (off unless passed explicitly in RUSTFLAGS).
+    println!("cargo::rustc-check-cfg=cfg(blake3_team_blake3_verif, values(none()))");
     for cfg_name in all_cfgs {
         // https://doc.rust-lang.org/cargo/reference/build-scripts.html#outputs-of-the-build-script
         println!("cargo::rustc-check-cfg=cfg({cfg_name}, values(none()))");
